@@ -76,6 +76,20 @@ func c14Expect(ws *writerSpec, mod [][]bool, reqW, reqH, margin int) (outW, outH
 	return
 }
 
+func c14Hash(bm *gozxing.BitMatrix) string {
+	h := uint64(1469598103934665603)
+	for y := 0; y < bm.GetHeight(); y++ {
+		for x := 0; x < bm.GetWidth(); x++ {
+			v := uint64(0)
+			if bm.Get(x, y) {
+				v = 1
+			}
+			h = (h ^ v) * 1099511628211
+		}
+	}
+	return fmt.Sprintf("%dx%d:%x", bm.GetWidth(), bm.GetHeight(), h)
+}
+
 // c14DefaultMargin: ZXing's documented defaults - 10 modules for 1-D writers, 9 for the UPC/EAN family.
 func c14DefaultMargin(ws *writerSpec) int {
 	switch ws.Name {
@@ -86,6 +100,12 @@ func c14DefaultMargin(ws *writerSpec) int {
 }
 
 func c14Render(r *fw.Rec, ws *writerSpec, content string, mod [][]bool, reqW, reqH, margin int) bool {
+	return c14RenderWith(r, ws, ws.New(), content, mod, reqW, reqH, margin)
+}
+
+// c14RenderWith renders with the given writer instance (a history of calls on one instance
+// must give the same images as fresh instances: hints of one call must not leak into the next).
+func c14RenderWith(r *fw.Rec, ws *writerSpec, w gozxing.Writer, content string, mod [][]bool, reqW, reqH, margin int) bool {
 	var hints map[gozxing.EncodeHintType]interface{}
 	if margin >= 0 {
 		hints = map[gozxing.EncodeHintType]interface{}{gozxing.EncodeHintType_MARGIN: margin}
@@ -93,7 +113,7 @@ func c14Render(r *fw.Rec, ws *writerSpec, content string, mod [][]bool, reqW, re
 			hints[gozxing.EncodeHintType_MARGIN] = fmt.Sprint(margin) // string form
 		}
 	}
-	bm, err := ws.New().Encode(content, ws.Format, reqW, reqH, hints)
+	bm, err := w.Encode(content, ws.Format, reqW, reqH, hints)
 	r.Evals(1)
 	info := map[string]interface{}{"writer": ws.Name, "content": content, "width": reqW, "height": reqH, "margin": margin}
 	if err != nil {
@@ -133,7 +153,7 @@ func c14Render(r *fw.Rec, ws *writerSpec, content string, mod [][]bool, reqW, re
 }
 
 func c14(c *fw.Ctx) {
-	c.Rule("every writer (QR, Data Matrix, nine 1-D) x 3 seeded small symbols: requested width x height exhaustive over 0..2N+3 (N = modules + quiet zone; 1-D heights {0,1,2,3,7}) with the default margin, margins 0..20 at sampled sizes (defaults: QR 4 per side, 1-D 10 shared, UPC/EAN 9 shared), sampled sizes up to 8N incl. non-square; every pixel of every output compared with the closed form of the statement; module matrix from the encoder (QR) or the 0x0/margin-0 rendering (Data Matrix, 1-D); distinct = distinct (writer, content, width, height, margin)")
+	c.Rule("every writer (QR, Data Matrix, nine 1-D) x 3 seeded small symbols: requested width x height exhaustive over 0..2N+3 (N = modules + quiet zone; 1-D heights {0,1,2,3,7}) with the default margin, margins 0..20 at sampled sizes (defaults: QR 4 per side, 1-D 10 shared, UPC/EAN 9 shared), sampled sizes up to 8N incl. non-square; every pixel of every output compared with the closed form of the statement; the sampled cases use ONE writer instance for a history of 6 calls with and without margin hints (no state may leak between calls) and re-check an earlier result after later calls; module matrix from the encoder (QR) or the 0x0/margin-0 rendering (Data Matrix, 1-D); distinct = distinct (writer, content, width, height, margin)")
 	c.Assume("the bare module matrix itself is validated against the standards by C07/C08/C03; here it is taken from the library's own 0x0 rendering")
 	for wi := range allWriters {
 		ws := &allWriters[wi]
@@ -202,6 +222,9 @@ func c14(c *fw.Ctx) {
 						return
 					}
 					rng := r.Rng
+					shared := ws.New() // one instance for the whole history of this case
+					var prev *gozxing.BitMatrix
+					var prevHash string
 					for rep := 0; rep < 6; rep++ {
 						margin := -1
 						if ws.Name != "DATA_MATRIX" && rng.Intn(4) != 0 {
@@ -225,8 +248,17 @@ func c14(c *fw.Ctx) {
 						if ws.OneD && h > 60 {
 							h = rng.Intn(60)
 						}
-						if !c14Render(r, ws, content, mod, w, h, margin) {
+						if !c14RenderWith(r, ws, shared, content, mod, w, h, margin) {
 							return
+						}
+						r.Tally("renderings_on_a_reused_writer_instance")
+						// a matrix handed out earlier must not change when the writer is used again
+						if prev != nil && c14Hash(prev) != prevHash {
+							r.Violation("model-mismatch", "render:"+ws.Name+":earlier-result-changed-by-a-later-call", fmt.Sprintf("%s: a matrix returned by an earlier Encode changed when the same writer encoded again", ws.Name), map[string]interface{}{"writer": ws.Name, "content": content})
+							return
+						}
+						if bm2, e2 := shared.Encode(content, ws.Format, w, h, nil); e2 == nil {
+							prev, prevHash = bm2, c14Hash(bm2)
 						}
 						if margin >= 0 {
 							r.Tally("renderings_with_margin_hint")
